@@ -1246,4 +1246,37 @@ def rule_conv_range(ctx, which, units=None):
                               OK if ok else VIOLATED, arm=f.name))
             if n == 0 and not tn.endswith('::search'):
                 obs.append(Ob('CONV-RANGE', f, 0, 'a floating position estimate converted to an integer', 'no floating-to-integer conversion found in the model evaluation', UNDECIDED, arm=f.name))
+            # INT-INTERCEPT: the (integer) intercept is added after the conversion, in integer arithmetic.  Converted to
+            # Floating (float by default: 24-bit mantissa) it is rounded as soon as positions reach 2^24.
+            reads, bad = 0, []
+            for i in f.all_ids():
+                nd = f.n(i)
+                if not reachable(f, i):
+                    continue
+                if nd['c'] == 'MemberExpr' and nd.get('dk') == 'field' and nd.get('n') in INTERCEPT_SOURCES:
+                    reads += 1
+                elif nd['c'] in ('CXXMemberCallExpr', 'CallExpr') and nd.get('cn') in INTERCEPT_SOURCES:
+                    reads += 1
+                if nd.get('ck') == 'IntegralToFloating':
+                    t = f.term(nd['ch'][0], inline=True)
+                    src = [x for x in _subterms_all(t) if (x[0] == 'field' and x[1] in INTERCEPT_SOURCES) or (x[0] == 'call' and x[1].rsplit('::', 1)[-1] in INTERCEPT_SOURCES)]
+                    if src:
+                        bad.append((i, t))
+            if reads or bad:
+                obs.append(Ob('INT-INTERCEPT', f, bad[0][0] if bad else 0, 'the integer intercept is added to the converted estimate in integer arithmetic (never converted to the floating type of the slope)',
+                              f"{reads} reads of the intercept, none converted to a floating type" if not bad else
+                              f"`{fmt_term(bad[0][1])[:70]}` is converted to a floating type: with Floating = float positions >= 2^24 are rounded",
+                              OK if not bad else VIOLATED, arm=f.name))
     return obs
+
+
+INTERCEPT_SOURCES = ('intercept', 'get_intercept', 'root_intercept', 'intercept_offset')
+
+
+def _subterms_all(t):
+    if isinstance(t, tuple):
+        if t and isinstance(t[0], str):
+            yield t
+        for x in t:
+            if isinstance(x, tuple):
+                yield from _subterms_all(x)
